@@ -890,6 +890,10 @@ iwrc iwfs_exfile_open(IWFS_EXT *f, const IWFS_EXT_OPTS *opts) {
   if (!path) {
     return IW_ERROR_INVALID_ARGS;
   }
+  if (opts->maxoff && (opts->maxoff < iwp_alloc_unit())) {
+    // The file size is page aligned: a maximum below one page cannot be honoured and must not mean "unlimited"
+    return IW_ERROR_INVALID_ARGS;
+  }
 
   EXF *impl = f->impl = calloc(1, sizeof(EXF));
   if (!impl) {
